@@ -171,7 +171,11 @@ def make_handler(h: dict) -> EdgeCaseHandler:
 def make_evaluator(cfg: dict, groups=None, **extra) -> Panoptica_Evaluator:
     return Panoptica_Evaluator(
         expected_input=INPUT[cfg["input"]],
-        instance_approximator=ConnectedComponentsInstanceApproximator(cca_backend=BACKEND[cfg["backend"]]),
+        # "default" = the documented default choice, asked for either by cca_backend=None or by not passing the
+        # argument at all (which of the two: a deterministic function of the configuration)
+        instance_approximator=(ConnectedComponentsInstanceApproximator()
+                               if cfg["backend"] == "default" and (len(cfg["im"]) + len(cfg["gm"]) + cfg["thr"][0]) % 2 == 0
+                               else ConnectedComponentsInstanceApproximator(cca_backend=BACKEND[cfg["backend"]])),
         instance_matcher=make_matcher(cfg["matcher"], cfg["mm"], cfg["thr"]),
         edge_case_handler=make_handler(cfg["h"]),
         segmentation_class_groups=groups,
